@@ -1,5 +1,64 @@
-/- Engine `scan` (C11): not built yet. -/
-import Driver.Common
+/-
+  Engine `scan` (C11).  Op line (see harness/scan.cpp):
+    <text-hex|-> [alt=<text-hex|->]
+  Output line:
+    C <count> W <written> R <rd>/<len> V <cell>* P <text2-hex|-> C2 <count2> W2 <written2> R2 <rd2>/<len2> V2 <cell>*
+    [ | A C <count> W <written> R <rd>/<len> V <cell>*]
+  from the model: `C11.countPrintedArgVals`, `C11.scanArgVals`, `C11.printArgVals defaultOpt`.
+  After a negative count the group ends.  Where the real code would leave defined behaviour
+  the group ends with `model:<kind>` (the harness then prints what the machine happened to do,
+  or `crash:…`; the lines differ).
+-/
+import RtoscModel.Pretty.C11Model
+import Driver.PrettyEngine
 namespace Driver.ScanEngine
-def engine : Driver.Engine := Driver.stateless (fun _ => "unimplemented")
+open Rtosc Rtosc.Libc Rtosc.Pretty
+open Rtosc.ArgVal (Cell)
+open Driver.PrettyEngine (showCell showErr)
+
+/-- count + scan of `text`: the output group with suffix `sfx`, and the scanned cells -/
+def countScan (text : Bytes) (sfx : String) : String × Option (List Cell) :=
+  match C11.countPrintedArgVals text with
+  | .error e => (s!"C{sfx} " ++ showErr e, none)
+  | .ok count =>
+    if count < 0 then (s!"C{sfx} {count}", none)
+    else
+      let n := count.toNat
+      match C11.scanArgVals text n with
+      | .error e => (s!"C{sfx} {count} W{sfx} " ++ showErr e, none)
+      | .ok (rd, cells) =>
+        if cells.length ≠ n then
+          -- the scanner writes behind the `count` cells it was given
+          (s!"C{sfx} {count} W{sfx} model:overrun:{cells.length}", none)
+        else
+          let cellsTxt := String.join (cells.map (fun c => " " ++ showCell c))
+          (s!"C{sfx} {count} W{sfx} {n} R{sfx} {rd}/{text.length} V{sfx}{cellsTxt}", some cells)
+
+def step (line : String) : String :=
+  match words line with
+  | [] => "bad-op"
+  | t :: more =>
+    match ofHex t with
+    | none => "bad-op"
+    | some text =>
+      if text.contains 0 then "bad-op" else
+      let (g1, cells?) := countScan text ""
+      let main : String :=
+        match cells? with
+        | none => g1
+        | some cells =>
+          match C11.printArgVals defaultOpt cells { out := [], cols := 0 } with
+          | .error e => g1 ++ " P " ++ showErr e
+          | .ok (st, _) =>
+            let text2 := st.out.takeWhile (· ≠ 0)
+            g1 ++ " P " ++ toHex text2 ++ " " ++ (countScan text2 "2").1
+      match more.find? (fun w => w.startsWith "alt=") with
+      | none => main
+      | some w =>
+        match ofHex (String.ofList (w.toList.drop 4)) with
+        | none => "bad-op"
+        | some alt =>
+          if alt.contains 0 then "bad-op" else main ++ " | A " ++ (countScan alt "").1
+
+def engine : Driver.Engine := Driver.stateless step
 end Driver.ScanEngine
